@@ -464,6 +464,11 @@ def event_items(tier):
 from ..edits import edit_cases, apply_edit  # noqa: E402,F401
 
 
+# edits a user may make while a run is stopped (nothing that is in use is taken away)
+AT_A_STOP = ("team-add-target", "worker-skill", "move-facility-in", "move-facility-out", "add-component", "set-rates", "resize-placed-component", "add-ff-link", "add-sf-link",
+             "worker-absence-append-3", "byhand-check-then-absent-1", "byhand-check-then-absent-2")
+
+
 def work_edits(chunk):
     col = engines.Collector()
     for a, b, name in chunk:
@@ -488,6 +493,41 @@ def work_edits(chunk):
             if got != ref:
                 col.violation({"property": "C09", "sig": "C09:run-after-model-edit-differs-from-fresh-model:" + name, "kind": "edit", "spec": a, "spec_after": b, "edit": name, "nruns": nruns,
                                "detail": {"first_difference(path, fresh edited model, edited after %d run(s))" % nruns: first_diff(ref, got)}})
+        if name not in AT_A_STOP:
+            continue
+        # the same edit made while the run is stopped at step k: the original objects and a copy rebuilt from a file written after the edit continue alike
+        for k in (1, 2, 3):
+            import os
+            import tempfile
+            from pDESy.model.base_project import BaseProject
+
+            try:
+                m = runner.prepare(a, opts)
+                m.project.simulate(**dict(runner.sim_kwargs(opts), max_time=k))
+                apply_edit(m, name)
+                fd, path = tempfile.mkstemp(prefix="verif-c09e-", suffix=".json")
+                os.close(fd)
+                try:
+                    m.project.write_simple_json(path)
+                    p2 = BaseProject()
+                    p2.read_simple_json(path)
+                finally:
+                    os.unlink(path)
+                cont = dict(runner.sim_kwargs(opts), initialize_state_info=False, initialize_log_info=False)
+                m.project.simulate(**cont)
+                p2.simulate(**dict(cont, absence_time_list=list(cont["absence_time_list"])))
+                da, db = jdump(m), jdump(S.adopt(p2))
+                diff = first_diff(da, db) if da != db else None
+            except Exception as e:
+                diff = "ERR:" + repr(e)
+            col.evaluations += 2
+            col.checks["c09.edited-at-a-stop:original-vs-rebuilt-copy"] += 1
+            key = hash((repr(a), name, "stop", k))
+            col.transitions.add(key)
+            col.nontrivial.add(key)
+            if diff:
+                col.violation({"property": "C09", "sig": "C09:continuation-of-a-rebuilt-copy-differs-from-the-original-objects:edited-at-the-stop:" + name, "kind": "edit", "spec": a, "spec_after": b, "edit": name,
+                               "nruns": 0, "detail": {"stop": k, "first_difference(original, copy)": diff}})
     return col
 
 
